@@ -87,6 +87,38 @@ CLAIMED = {
     note='Known findings D08 / D40; constructor overrides are part of the fixed universe; add_edges_from_matrix covered in C16.',
     technique='TLA+ action property over override histories (TLC), replay into real template objects',
     ref='6/C07'),
+
+ 'C01': dict(
+    text='spec/Wiring.tla: layer M Denote(program) - the affine vector field the user wrote (bag-of-contributions semantics for '
+         'inputs, declared default when empty) over programs built from an operator library (two inputs per operator, same-node '
+         'operator output named like an input, second state variable, edge template), layer P the compile pipeline (per-source '
+         'collection, accumulated weight matrix, multi-source sum term); TLC checks FieldCorrect (P refines M) for every program '
+         'within the bounds and that each historic deviation violates it. Every selected program is compiled (vectorize on/off, '
+         '0-2 hierarchy levels, reversed declaration order, four spellings of the equation) and the field recovered by probing '
+         'the returned function is compared exactly with Denote; layout positions from distinct initial values.',
+    note='Affine integer library: agreement on a basis + origin is agreement for all y; 1-2 nodes x <= 2 edges exhaustive (sampled in '
+         'quick), 3 nodes in thorough; known findings D42 (vectorised non-zero input defaults) and D43 excluded by class, pinned.',
+    technique='TLA+ denotational spec + pipeline refinement (TLC), exhaustive program enumeration, exact field probing of get_run_func',
+    ref='6/C01'),
+ 'C04': dict(
+    text='Same Denote (spec/Wiring.tla) over C04Progs: populations of 4-12 identical / alternating nodes with permutation coupling '
+         '(identity, shifts, permuted interior with fixed end points, pair swaps), dense and sparse block patterns, plus all '
+         'two-node same-kind programs; each compiled with vectorize=True and False, matrix_sparseness 0.1/0.5(/0.02) and weights '
+         'scaled by 2^-40; both fields must equal Denote exactly (hence each other).',
+    note='Delayed edges with/without vectorisation are compared as trajectories in C09 (Solver.tla); D42 class excluded from vectorised runs.',
+    technique='TLA+ denotational spec (TLC enumeration of connection patterns), exact field probing in both vectorisation modes',
+    ref='6/C04'),
+ 'C16': dict(
+    text='spec/WiringCases!Expand maps a PopulationTemplate/Connectivity circuit to nodes and one scalar edge per non-zero entry; '
+         'Denote of the expansion (Wiring.tla) is the meaning. TLC enumerates 1-3 populations of 1-4 units, recurrent / forward / '
+         'converging connections, non-square signed sparse matrices, scalar weights, per-unit parameters, coupling edges (pre, '
+         'chained operators declared against dependency order, pre-minus-post per (target, source) pair); the population circuit, '
+         'the add_edges_from_matrix circuit and the edge-by-edge circuit are compiled and compared exactly with the meaning; '
+         'delayed Connectivity trajectories via Solver.tla.',
+    note='Input defaults 0; D27 (single-unit populations, loud) matched by class; dynamic (stateful) coupling edges and gamma-kernel '
+         'matrix delays are covered in C11 only.',
+    technique='TLA+ expansion operator + denotational spec (TLC), exact field probing of three frontend forms',
+    ref='6/C16'),
 }
 
 NOT_YET = 'check not built yet in this round (planned in DESIGN.md section 6); not claimed'
